@@ -234,9 +234,13 @@ var ledgerSpecs = []ledgerSpec{
 		}
 		chain := []string{"P:0:p1", "P:0:p2", "P:0:p3"}
 		diamond := []string{"P:0:p1", "Z:0:side", "P:0:p2", "P:0:p3"}
+		// two siblings c1, c2 under p1 and a stranger x under another parent q: G<-p1<-{c1,c2}, G<-q<-x
+		siblings := []string{"P:0:p1", "Z:0:q", "Z:0:c1:0", "Z:0:c2:0", "Z:0:x:1"}
+		sib := func(l string) ledger.TxSpec { return tx(l, "R", "B", 1, 0) }
 		return wide(tier, []ledgerRun{
 			{"diamond-any-order", ledger.Cfg{Nodes: []string{"G", "N1"}, Supply: sp(10, 0), Menu: nil, Hidden: []ledger.TxSpec{tx("side", "R", "B", 1, 0)}, Tick: true, Prefix: diamond, Props: only("C13")}, d + 2, 0, 0},
 			{"chain3-any-order", ledger.Cfg{Nodes: []string{"G", "N1"}, Supply: sp(10, 0), Menu: nil, Tick: true, Dup: true, Prefix: chain, Props: only("C13")}, d, 0, 0},
+			{"siblings+stranger-any-order", ledger.Cfg{Nodes: []string{"G", "N1"}, Supply: sp(10, 0), Menu: nil, Hidden: []ledger.TxSpec{sib("q"), sib("c1"), sib("c2"), sib("x")}, Tick: true, Prefix: siblings, Props: only("C13")}, d + 4, 0, 0},
 			{"chain3+local-proposal", ledger.Cfg{Nodes: []string{"G", "N1"}, Supply: sp(10, 0), Menu: []ledger.TxSpec{tx("loc", "R", "B", 1, 0)}, MaxProposeNodes: 1, Tick: true, Prefix: chain, Props: only("C13")}, d - 1, 0, 0},
 		},
 			ledgerRun{"chain4-any-order+dup", ledger.Cfg{Nodes: []string{"G", "N1"}, Supply: sp(10, 0), Menu: nil, Tick: true, Dup: true, Prefix: []string{"P:0:p1", "P:0:p2", "P:0:p3", "P:0:p4"}, Props: only("C13")}, 12, 0, 0},
